@@ -440,31 +440,6 @@ func minShouldNode(q *QN) bool {
 	return true
 }
 
-// blocksOptimisation: leaf kinds whose searcher never takes part in the score:none bitmap
-// optimisation of an enclosing disjunction (used only to keep randomly generated trees out of
-// the class above — see gen).
-func blocksOptimisation(q *QN) bool {
-	switch q.K {
-	case "all", "none", "docids", "phrase", "matchphrase", "multiphrase":
-		return true
-	}
-	return false
-}
-
-// minShouldShape: must + should with floor(min) >= 1 and no should child that blocks the
-// optimisation — the shapes on which the confirmed defect (DESIGN.md section 8 item 5) can show.
-func minShouldShape(q *QN) bool {
-	if q.K != "boolean" || len(q.Must) == 0 || len(q.Should) == 0 || !q.HasShould || q.Min2 < 2 {
-		return false
-	}
-	for _, s := range q.Should {
-		if blocksOptimisation(s) {
-			return false
-		}
-	}
-	return true
-}
-
 // unsafeRegexp: a regexp whose matches do not all have the same length (signature class
 // "regexp-leftmost-first" on upsidedown).
 func unsafeRegexp(q *QN) bool {
